@@ -164,7 +164,7 @@ theorem compile_lhs_mapped (inputs : List String) (defs : List (String × BExp))
     ∀ p ∈ defs, scratchName p.1 = false →
       ∃ q, dictGet? s.qc.qmap p.1 = some q ∧ q < s.qc.numQubits := by
   intro p hp hs
-  obtain ⟨hg, _, hk, _⟩ := compile_ok h
+  obtain ⟨hg, _, hk, _, _⟩ := compile_ok h
   have := hk p hp hs
   cases hq : dictGet? s.qc.qmap p.1 with
   | none => rw [hq] at this; cases this
@@ -201,7 +201,7 @@ theorem compile_inputs_first (inputs : List String) (defs : List (String × BExp
     (hf : inputsFresh inputs defs = true) :
     inputs.length ≤ s.qc.numQubits ∧
     ∀ (i : Nat) (x : String), inputs[i]? = some x → dictGet? s.qc.qmap x = some i := by
-  obtain ⟨_, hlen, _, hpos⟩ := compile_ok h
+  obtain ⟨_, hlen, _, hpos, _⟩ := compile_ok h
   simp only [inputsFresh, Bool.and_eq_true, decide_eq_true_eq, List.all_eq_true, Bool.not_eq_true',
     List.contains_eq_mem, decide_eq_false_iff_not] at hf
   exact ⟨hlen, hpos hf.1 (fun n hn => hf.2 n hn)⟩
@@ -209,15 +209,19 @@ theorem compile_inputs_first (inputs : List String) (defs : List (String × BExp
 /-- **(4) bookkeeping that holds**: every index stored in the ancilla set, the free set, the
 marked set and the `qubit_map` is a qubit of the circuit; the ancilla set is duplicate-free; a
 name mapped to a qubit that is still in the ancilla set is a scratch name (so no promoted
-left-hand side sits on an ancilla). -/
+left-hand side sits on an ancilla); no argument qubit (index below the number of inputs) is ever
+in the ancilla, free or marked set, so none is handed out as scratch space. -/
 theorem compile_bookkeeping (inputs : List String) (defs : List (String × BExp))
     (ret : Option (List String)) (unc : Bool) (cs : List Nat) (s : CState)
     (h : (compile inputs defs ret unc).run { choices := cs } = .ok ((), s)) :
     (∀ a ∈ s.qc.anc, a < s.qc.numQubits) ∧ (∀ a ∈ s.qc.free, a < s.qc.numQubits) ∧
     (∀ a ∈ s.qc.marked, a < s.qc.numQubits) ∧ (∀ p ∈ s.qc.qmap, p.2 < s.qc.numQubits) ∧
-    s.qc.anc.Nodup ∧ (∀ p ∈ s.qc.qmap, p.2 ∈ s.qc.anc → scratchName p.1 = true) :=
+    s.qc.anc.Nodup ∧ (∀ p ∈ s.qc.qmap, p.2 ∈ s.qc.anc → scratchName p.1 = true) ∧
+    (∀ a ∈ s.qc.anc, inputs.length ≤ a) ∧ (∀ a ∈ s.qc.free, inputs.length ≤ a) ∧
+    (∀ a ∈ s.qc.marked, inputs.length ≤ a) :=
   have hg := (compile_ok h).1
-  ⟨hg.anc_lt, hg.free_lt, hg.marked_lt, hg.qmap_lt, hg.anc_nodup, hg.anc_named⟩
+  have hs := (compile_ok h).2.2.2.2
+  ⟨hg.anc_lt, hg.free_lt, hg.marked_lt, hg.qmap_lt, hg.anc_nodup, hg.anc_named, hs.1, hs.2.1, hs.2.2⟩
 
 /-- (4) bookkeeping that does **not** hold: `free ⊆ anc` fails – a temporary that was marked and
 uncomputed early (event `markNamedTemp`, finding `C02-temp-uncomputed-early`) and is promoted
